@@ -115,6 +115,13 @@ func (s *Sink) All() []byte {
 	return out
 }
 
+// EventsCopy returns a copy of the event log.
+func (s *Sink) EventsCopy() []Event {
+	s.mu.Lock()
+	defer s.mu.Unlock()
+	return append([]Event(nil), s.Events...)
+}
+
 // Reset forgets all events.
 func (s *Sink) Reset() {
 	s.mu.Lock()
